@@ -5,7 +5,9 @@
 (* below the wrap.  Shape constraints keep the enumeration useful: GetRoutees and    *)
 (* pool adjustments are not repeated back to back.                                   *)
 EXTENDS Router, Json
-CONSTANTS Depth, MaxChurn, MinAlive
+CONSTANTS Depth, MaxChurn, MinAlive,
+          GenOps,     \* operations the generator may use (subset of {"Send","Die","Fail","Adjust","GetRoutees"})
+          MaxDelta    \* largest |d| of a pool adjustment
 VARIABLES hist, churn
 Tab(n, v) == [r \in Routees |-> [i \in 1..VN |-> v[r * VN + i]]]
 \* a few virtual-node tables (MaxPool = 4, VN = 2, H = 8): spread, collisions between members,
@@ -26,6 +28,8 @@ GInit == /\ Init /\ hist = <<InitRec>> /\ churn = 0
          /\ strat # "rr" => IsZero(ctr)
 GNext == /\ Next /\ ~(Quiet(last.op) /\ Quiet(last'.op))
          /\ strat # "hash" => last'.key = "-"
+         /\ last'.op \in GenOps
+         /\ (last'.d <= MaxDelta /\ 0 - last'.d <= MaxDelta)
          /\ hist' = Append(hist, last')
          /\ churn' = IF last'.op = "Send" THEN churn ELSE churn + 1
          /\ churn' <= MaxChurn
